@@ -616,6 +616,19 @@ pub fn families(tier: Tier, _variant: &str) -> Vec<Family> {
             check_literal(ctx, &lit_of(&body), both, &f2[..]);
         }));
     }
+    // 6b. every distinct string literal of the corpus documents (twitter.json: escapes, CJK, emoji)
+    {
+        let mut lits: Vec<Vec<u8>> = vec![];
+        for (_, d) in gen::corpus() {
+            lits.extend(gen::corpus_tokens(&d, true));
+        }
+        lits.sort();
+        lits.dedup();
+        if q {
+            lits = lits.into_iter().enumerate().filter(|(i, _)| i % 3 == 0).map(|(_, s)| s).collect();
+        }
+        v.push(Family::of_vec("corpus-string-literals", lits, move |l, ctx| check_literal(ctx, l, both, &f2[..1])));
+    }
     // 7. plain run of every length followed by every short B11 tail
     {
         let k = gen::B11.len() as u64;
